@@ -480,7 +480,12 @@ func c02Run(c c02Case) (o c02Obs, framed int) {
 	o.KeptOpen = conn.ReadAfterLastWrite()
 	o.Closed = conn.Closed > 0
 	o.Consumed = conn.Consumed()
-	out := conn.Output()
+	c02ParseResponses(conn.Output(), &o)
+	return o, framed
+}
+
+// c02ParseResponses splits what the server wrote into responses with net/http.
+func c02ParseResponses(out []byte, o *c02Obs) {
 	br := bufio.NewReader(bytes.NewReader(out))
 	for {
 		if _, err := br.Peek(1); err != nil {
@@ -507,7 +512,168 @@ func c02Run(c c02Case) (o c02Obs, framed int) {
 		}
 		o.Resps = append(o.Resps, c02Resp{Status: resp.StatusCode, ByH: resp.Header.Get("X-H") != "", Body: b})
 	}
-	return o, framed
+}
+
+// ---- two-connection histories: the pooled requestStream ----------------------------------------------------------------
+//
+// Connection 1: StreamRequestBody, one chunk of ChunkSize bytes, the handler reads ReadK < ChunkSize bytes and returns,
+// so the pooled requestStream is released in the middle of a chunk. Connection 2 (served afterwards by the same
+// Server on the same goroutine, so that the pool hands the same object over; checked by pointer, retried): a chunked
+// POST /second whose handler reads to EOF. Its single chunk's DATA carries, at the offset where a stream that still
+// believed to be ChunkSize-ReadK bytes inside a chunk would look for the next chunk header, "CRLF 0 CRLF CRLF" and the
+// embedded canary. For a correct server all of that is opaque chunk data.
+
+type c02PoolCase struct {
+	Pool      bool `json:"pool"` // discriminator for replay
+	ChunkSize int  `json:"chunk_size"`
+	ReadK     int  `json:"read_k"`
+	Prog2     int  `json:"prog2"` // c02ProgReadEOF or c02ProgPostBody
+	Follow    int  `json:"follow"`
+	Data2     int  `json:"data2_size"`
+}
+
+func (c c02PoolCase) String() string {
+	return fmt.Sprintf("conn1: chunked, one %d-byte chunk, handler reads %d bytes; conn2: chunked %d-byte chunk with embedded terminator+canary, handler %s, follow=%s",
+		c.ChunkSize, c.ReadK, c.Data2, c02ProgName[c.Prog2], c02FoName[c.Follow])
+}
+
+func c02PoolScripts(c c02PoolCase) (s1, s2 []byte, framed2 int) {
+	s1 = []byte("POST /first HTTP/1.1\r\nHost: c02\r\nContent-Type: application/octet-stream\r\nTransfer-Encoding: chunked\r\n\r\n" +
+		strconv.FormatInt(int64(c.ChunkSize), 16) + "\r\n" + strings.Repeat("y", c.ChunkSize) + "\r\n0\r\n\r\n")
+	data := bytes.Repeat([]byte("x"), c.Data2)
+	hexLine := strconv.FormatInt(int64(c.Data2), 16) + "\r\n"
+	stale := c.ChunkSize - c.ReadK // bytes a stale stream would still take as chunk data
+	inj := "\r\n0\r\n\r\n" + c02Embedded
+	off := stale - len(hexLine)
+	if off < 0 {
+		off = 0
+	}
+	if off+len(inj) <= len(data) {
+		copy(data[off:], inj)
+	}
+	s2 = []byte("POST /second HTTP/1.1\r\nHost: c02\r\nContent-Type: application/octet-stream\r\nTransfer-Encoding: chunked\r\n\r\n" + hexLine)
+	s2 = append(s2, data...)
+	s2 = append(s2, "\r\n0\r\n\r\n"...)
+	framed2 = 1
+	if c.Follow == c02FoAfter {
+		s2 = append(s2, c02After...)
+		framed2 = 2
+	}
+	return
+}
+
+type c02PoolObs struct {
+	C1, C2   c02Obs
+	Reused   bool
+	Mid      bool // connection 1's stream really was released inside a chunk
+	ReadErr2 string
+}
+
+func c02PoolRunOnce(c c02PoolCase) (o c02PoolObs, framed2 int) {
+	s1, s2, framed2 := c02PoolScripts(c)
+	var rs1, rs2 *requestStream
+	cur := &o.C1
+	s := &Server{StreamRequestBody: true, Logger: c02NopLogger{}, NoDefaultDate: true}
+	s.Handler = func(ctx *RequestCtx) {
+		call := c02Call{string(ctx.Method()), string(ctx.RequestURI())}
+		idx := len(cur.Calls)
+		cur.Calls = append(cur.Calls, call)
+		rs, _ := ctx.Request.bodyStream.(*requestStream)
+		switch {
+		case cur == &o.C1 && idx == 0 && call.URI == "/first":
+			rs1 = rs
+			if st := ctx.RequestBodyStream(); st != nil {
+				io.CopyN(io.Discard, st, int64(c.ReadK)) //nolint:errcheck
+			}
+			if rs != nil {
+				o.Mid = rs.chunkLeft > 0
+			}
+		case cur == &o.C2 && idx == 0 && call.URI == "/second":
+			rs2 = rs
+			if c.Prog2 == c02ProgPostBody {
+				_ = ctx.PostBody()
+			} else if st := ctx.RequestBodyStream(); st != nil {
+				if _, err := io.Copy(io.Discard, st); err != nil {
+					o.ReadErr2 = err.Error()
+				}
+			}
+		}
+		ctx.Response.Header.Set("X-H", strconv.Itoa(idx))
+		ctx.SetBodyString("H:" + call.Method + " " + call.URI)
+	}
+	for i, script := range [][]byte{s1, s2} {
+		if i == 1 {
+			cur = &o.C2
+		}
+		conn := vnet.NewConn(script)
+		if err := s.ServeConn(conn); err != nil {
+			cur.ServeErr = err.Error()
+		}
+		cur.KeptOpen = conn.ReadAfterLastWrite()
+		cur.Closed = conn.Closed > 0
+		cur.Consumed = conn.Consumed()
+		c02ParseResponses(conn.Output(), cur)
+	}
+	o.Reused = rs1 != nil && rs1 == rs2
+	return o, framed2
+}
+
+func c02PoolRun(c c02PoolCase) (o c02PoolObs, framed2, tries int) {
+	for tries = 1; ; tries++ {
+		o, framed2 = c02PoolRunOnce(c)
+		if o.Reused || tries == 20 {
+			return
+		}
+	}
+}
+
+func c02PoolJudge(r *vrt.R, c c02PoolCase, o *c02PoolObs, framed2 int) {
+	viol := func(effect, what string, ob *c02Obs) {
+		r.Violation("pooled-request-stream:"+effect, fmt.Sprintf("%s [%s] reused=%v %s", what, c, o.Reused, c02Describe(ob)), c)
+	}
+	want := [][]c02Call{{{"POST", "/first"}}, {{"POST", "/second"}, {"GET", "/after"}}}
+	for ci, ob := range []*c02Obs{&o.C1, &o.C2} {
+		framed := 1
+		if ci == 1 {
+			framed = framed2
+		}
+		if ob.ParseErr != "" {
+			viol("output-not-parseable", fmt.Sprintf("connection %d: %s", ci+1, ob.ParseErr), ob)
+			return
+		}
+		for i, h := range ob.Calls {
+			if i >= framed || h != want[ci][i] {
+				viol("body-bytes-reach-handler", fmt.Sprintf("connection %d: the handler was called with method %q target %q, which is not a message of the script at this position", ci+1, c02Short(h.Method), c02Short(h.URI)), ob)
+				return
+			}
+		}
+		if len(ob.Calls) == 0 {
+			viol("first-request-not-dispatched", fmt.Sprintf("connection %d: its well-formed request never reached the handler", ci+1), ob)
+			return
+		}
+		if len(ob.Resps) > framed {
+			viol("body-bytes-parsed-as-request", fmt.Sprintf("connection %d: %d final responses for %d framed request(s)", ci+1, len(ob.Resps), framed), ob)
+			return
+		}
+		if framed == 2 && len(ob.Calls) < 2 && (len(ob.Resps) == 2 || ob.KeptOpen) {
+			viol("followup-not-dispatched", fmt.Sprintf("connection %d: the follow-up was answered by the server itself or dropped with the connection kept open", ci+1), ob)
+			return
+		}
+	}
+}
+
+func c02PoolEnumerate() []c02PoolCase {
+	var out []c02PoolCase
+	for _, cs := range []int{16, 100, 5000, 9000} {
+		for _, k := range []int{0, 1, cs / 2, cs - 1} {
+			for _, p2 := range []int{c02ProgReadEOF, c02ProgPostBody} {
+				for _, fo := range []int{c02FoNothing, c02FoAfter} {
+					out = append(out, c02PoolCase{Pool: true, ChunkSize: cs, ReadK: k, Prog2: p2, Follow: fo, Data2: 12000})
+				}
+			}
+		}
+	}
+	return out
 }
 
 // c02Cause names what the case did to message 1's body (the defect shape is cause + effect).
@@ -675,8 +841,11 @@ func c02Valid(c c02Case) bool {
 	if c02Withheld(c.Expect) && c.Follow == c02FoEmbedded {
 		return false // no body sent, nothing to embed into
 	}
-	if c02TrailerBad(c.Framing) && (c02Withheld(c.Expect) || c.Size > 1<<20) {
-		return false // no body sent: same script as the well-formed trailer; the 4 MiB bodies only with well-formed framing
+	if c02TrailerBad(c.Framing) && (c02Withheld(c.Expect) || c.MaxBody == 0 || c.Kind != c02KindOctet) {
+		// no body sent: same script as the well-formed trailer. Malformed trailers are enumerated with the 16 KiB
+		// limit and octet bodies only: the default limit repeats the small sizes, and a chunked multipart body is
+		// not pre-parsed, so neither slot changes what happens at the trailer.
+		return false
 	}
 	if c.Framing == c02FrTrailerCut && c.Follow == c02FoAfter {
 		return false // "cut at end of input" has nothing behind it
@@ -755,6 +924,14 @@ func TestVerif_C02(t *testing.T) {
 	r := vrt.Begin(t, "C02", "exploration")
 	defer r.End()
 	if rp := r.Replay(); rp != nil {
+		var pc c02PoolCase
+		if json.Unmarshal(rp, &pc) == nil && pc.Pool {
+			o, framed2, tries := c02PoolRun(pc)
+			c02PoolJudge(r, pc, &o, framed2)
+			r.Eval(1)
+			t.Logf("replayed %s: reused=%v tries=%d", pc, o.Reused, tries)
+			return
+		}
 		var c c02Case
 		if err := json.Unmarshal(rp, &c); err != nil {
 			r.ToolError("replay artefact: %v", err)
@@ -766,7 +943,7 @@ func TestVerif_C02(t *testing.T) {
 		return
 	}
 	r.Rule("full product of handler program over the body {ignore, Read 0/1/half/all-but-1, read to EOF, read to EOF + one more Read, PostBody, MultipartForm} x StreamRequestBody x " +
-		"(MaxRequestBodySize L in {16 KiB, default 4 MiB}) x body size {0,1,8191,8192,8193,L-1,L,L+1} x framing {Content-Length, chunked 1/3 chunks, chunked+trailer, chunked with a malformed trailer section: no final CRLF (the follow-up then sits in trailer position), forbidden field (Content-Length), garbage line, cut at end of input; malformed trailers with bodies <= 16 KiB+1} x " +
+		"(MaxRequestBodySize L in {16 KiB, default 4 MiB}) x body size {0,1,8191,8192,8193,L-1,L,L+1} x framing {Content-Length, chunked 1/3 chunks, chunked+trailer, chunked with a malformed trailer section: no final CRLF (the follow-up then sits in trailer position), forbidden field (Content-Length), garbage line, cut at end of input; malformed trailers with L=16 KiB and octet bodies only} x " +
 		"Expect handling {none, accepted by default / ContinueHandler=true / ExpectHandler=100, ContinueHandler=false, ExpectHandler=417, ExpectHandler=403, the rejections with the body withheld or sent anyway} x " +
 		"follow-up {GET /after behind the body, GET /embedded inside the body (octet body: at offset 0 and in every 256-byte block; multipart body: in the epilogue behind the closing delimiter), nothing} x " +
 		"body kind {octet-stream, multipart/form-data (sizes >= 8191)} x delivery {head|body|follow-up in separate reads, all at once (4 MiB bodies: thorough tier only); thorough: 1-byte dribble for scripts <= 20 KiB and a single split at each interesting offset}. " +
@@ -774,18 +951,36 @@ func TestVerif_C02(t *testing.T) {
 		"final responses (parsed with net/http.ReadResponse, 1xx skipped) never outnumber framed requests; the embedded canary never reaches the handler nor gets a response; " +
 		"the follow-up is dispatched to the handler, or the server closed the connection without reading further. " +
 		"A message with a malformed trailer may be refused or (terminated variants) accepted; with an unterminated trailer nothing behind the last chunk is a message, so nothing further may be dispatched or answered. " +
+		"Plus two-connection histories through one Server (pooled requestStream handed over, checked by pointer): connection 1 chunked with one chunk of {16,100,5000,9000} bytes whose handler reads {0,1,half,all-but-1} bytes, connection 2 a chunked body read to EOF / PostBody whose chunk data carries CRLF 0 CRLF CRLF + canary where a stale mid-chunk state would resume, follow-up {nothing, canary}. " +
 		"Non-trivial: cases in which part of message 1's framed body was still on the connection when the handler returned or the expectation was rejected, or bytes followed a multipart closing delimiter")
 	r.Assume("net/http.ReadResponse delimits the responses the server wrote", "scripts are well-formed by construction; withheld-body scripts are judged by what the client actually sent")
+	// two-connection histories first, on this goroutine alone, so that the package-level requestStream pool hands
+	// connection 1's object to connection 2
+	for _, pc := range c02PoolEnumerate() {
+		o, framed2, tries := c02PoolRun(pc)
+		c02PoolJudge(r, pc, &o, framed2)
+		r.Eval(1)
+		r.Add("pool_histories", 1)
+		if o.Reused {
+			r.Add("pool_histories_same_requestStream_object_reused", 1)
+		}
+		if o.Reused && o.Mid {
+			r.Add("pool_histories_stream_released_mid_chunk_then_reused", 1)
+			r.Nontrivial("pool:" + pc.String())
+		}
+		r.Add("pool_history_retries", int64(tries-1))
+	}
 	cases := c02Enumerate(r.Thorough())
 	r.Set("cases_enumerated", len(cases))
 	const batch = 32
 	nb := (len(cases) + batch - 1) / batch
 	// interleave so that the 4 MiB cases are spread over the shards
+	var capOnce sync.Once
 	r.Par(nb, func(b int) {
 		n := 0
 		for i := b; i < len(cases); i += nb {
 			if r.Expired() {
-				r.NotExhaustive("time budget reached")
+				capOnce.Do(func() { r.NotExhaustive("time budget reached") })
 				break
 			}
 			c := cases[i]
